@@ -9,6 +9,18 @@ HERE = os.path.dirname(os.path.dirname(os.path.abspath(__file__)))
 sys.path.insert(0, HERE)
 
 CLAIMED = {
+    'C16': dict(
+        category='other',
+        text='Acquire/release typestate on all CFG paths of every function reachable from the interposers (heap, FILE*, '
+             'descriptors, getline buffers, the repository lock) with ownership summaries across calls; an '
+             'interprocedural typestate for the pointer/_malloced pairs of the configuration record (no overwrite while '
+             'owned, flag agrees with value, free only under the flag); init/cleanup mirror and per-thread record '
+             'allocation/free agreement; SOCK_CLOEXEC; deny-list of process-state mutators over the resolved call graph. '
+             'Thread-safe and non-thread-safe builds. Error paths are covered because every CFG path is.',
+        design_ref='DESIGN.md §5 C16, §4 A3',
+        note='Not decided: memory retained inside libc; measured growth. Three genuine leaks found on the pinned tree '
+             'were replayed under valgrind and repaired.',
+        technique='static analysis: pairing/typestate dataflow with ownership summaries + call-graph deny-list'),
     'C03': dict(
         category='other',
         text='Per-call-site failure discipline over everything reachable from the interposers: socket()/send() flags '
